@@ -70,6 +70,8 @@ func init() {
 		"(net/http.Header).Add":    intrHeaderAdd,
 		"(net/http.Header).Del":    intrHeaderDel,
 		"(net/http.Header).Clone":  intrHeaderClone,
+		"encoding/json.Marshal":    intrJSONMarshal,
+		"encoding/json.Unmarshal":  intrJSONUnmarshal,
 		"regexp.MustCompile":       intrRegexpCompile,
 		"regexp.Compile":           intrRegexpCompile,
 		"(*regexp.Regexp).MatchString":         intrRegexpMatchString,
@@ -202,19 +204,24 @@ func (ex *Exec) verifCall(fn *ssa.Function, args []Value, fr *Frame) Value {
 		max := ex.concInt(args[1].(*Term), "verifBytesSym max")
 		lv := ex.freshVar(name+".len", 64)
 		ex.addPC(tb.Cmp(OpUle, lv, ex.i64(int64(max))))
+		// the content is an uninterpreted function of the position: reads at symbolic offsets
+		// are plain applications instead of max-way multiplexers
+		uf := ex.freshVar(name+"@bytes", 0).Name
 		ts := make([]*Term, max)
 		for i := range ts {
-			ts[i] = ex.freshVar(fmt.Sprintf("%s[%d]", name, i), 8)
+			ts[i] = ex.tb.App(uf, 8, ex.i64(int64(i)))
 		}
 		if fn.Name() == "verifStringSym" {
 			s := ex.strFromTerms(ts)
 			s.Len = lv
 			s.cs = nil
+			s.Arr.UF = uf
 			return s
 		}
 		s := ex.sliceFromTerms(ts, types.Typ[types.Uint8])
 		s.Len = lv
 		s.Cap = lv
+		s.Arr.UF = uf
 		return s
 	case "verifAssume":
 		c := args[0].(*Term)
@@ -255,6 +262,9 @@ func (ex *Exec) verifCall(fn *ssa.Function, args []Value, fr *Frame) Value {
 		return ex.i64(0)
 	case "verifResetAlloc":
 		delete(ex.ghost, "maxAlloc")
+		return nil
+	case "verifAllocLimit":
+		ex.ghost["allocLimit"] = args[0].(*Term)
 		return nil
 	case "verifSameBacking":
 		a, b := args[0].(*SliceV), args[1].(*SliceV)
@@ -888,13 +898,7 @@ func intrBinaryRead(ex *Exec, fn *ssa.Function, a []Value, fr *Frame) Value {
 		var v *Term
 		for i := 0; i < nb; i++ {
 			pos := tb.Add(tb.Add(buf.Off, off), ex.i64(int64(i)))
-			var b *Term
-			arr := buf.Arr.Val.(ArrayV)
-			if pos.IsConst() {
-				b = arr[int(pos.SInt())].(*Term)
-			} else {
-				b = ex.muxRead(arr, pos, 0, len(arr)).(*Term)
-			}
+			b := ex.readAt(buf.Arr, pos)
 			if v == nil {
 				v = b
 			} else {
@@ -918,6 +922,7 @@ func (ex *Exec) putUint(s *SliceV, v *Term, nb int) Value {
 	ex.check(ex.tb.Cmp(OpSle, ex.i64(int64(nb)), s.Len), "PutUint: index out of range")
 	off := ex.concInt(s.Off, "PutUint offset")
 	arr := s.Arr.Val.(ArrayV)
+	s.Arr.UF = ""
 	for i := 0; i < nb; i++ {
 		hi := v.W - 1 - 8*i
 		arr[off+i] = ex.tb.Extract(v, hi, hi-7)
@@ -1021,4 +1026,91 @@ func sortedKeys(m map[string]int) []string {
 	}
 	sort.Strings(ks)
 	return ks
+}
+
+// ---------- encoding/json (uninterpreted inverse pair for http.Header) ----------
+//
+// Marshal(header) yields a short concrete byte string that identifies the header set;
+// Unmarshal of exactly those bytes restores an equal header set.  Any other input makes
+// Unmarshal fail or yield an arbitrary (fresh, empty) header: the JSON codec itself is
+// outside the claim (DESIGN.md §8).
+
+func intrJSONMarshal(ex *Exec, fn *ssa.Function, a []Value, fr *Frame) Value {
+	v := a[0].(*IfaceV)
+	m, ok := v.Val.(*MapV)
+	if !ok {
+		panic(unsupported("json.Marshal of " + fmt.Sprint(v.Typ)))
+	}
+	var enc string
+	if m.M == nil {
+		enc = "null"
+	} else {
+		// equal header sets get the same image: key on the (concrete) content
+		content := ""
+		for _, e := range m.M.Entries {
+			k, _ := ex.goString(e.Key.(*StringV))
+			content += k + "="
+			for _, v := range ex.stringSliceElems(e.Val) {
+				g, ok := ex.goString(v)
+				if !ok {
+					panic(unsupported("json.Marshal of a header with symbolic values"))
+				}
+				content += fmt.Sprintf("%q,", g)
+			}
+			content += ";"
+		}
+		if id, ok := ex.ghost["jsonid:"+content].(*Term); ok {
+			enc = fmt.Sprintf("{J%d}", id.Val)
+		} else {
+			n, _ := ex.ghost["jsonCount"].(*Term)
+			k := 0
+			if n != nil {
+				k = int(n.Val)
+			}
+			k++
+			ex.ghost["jsonCount"] = ex.i64(int64(k))
+			ex.ghost["jsonid:"+content] = ex.i64(int64(k))
+			enc = fmt.Sprintf("{J%d}", k)
+		}
+		ex.ghost["json:"+enc] = intrHeaderClone(ex, nil, []Value{m}, fr)
+	}
+	bs := make([]*Term, len(enc))
+	for i := range bs {
+		bs[i] = ex.tb.BV(8, uint64(enc[i]))
+	}
+	return TupleV{ex.sliceFromTerms(bs, types.Typ[types.Uint8]), &IfaceV{}}
+}
+
+func intrJSONUnmarshal(ex *Exec, fn *ssa.Function, a []Value, fr *Frame) Value {
+	data := a[0].(*SliceV)
+	dst := a[1].(*IfaceV).Val.(*Pointer)
+	if data.Len.IsConst() && data.Off.IsConst() {
+		bs := ex.sliceTerms(data)
+		conc := true
+		b := make([]byte, len(bs))
+		for i, t := range bs {
+			if !t.IsConst() {
+				conc = false
+				break
+			}
+			b[i] = byte(t.Val)
+		}
+		if conc {
+			enc := string(b)
+			if enc == "null" {
+				return &IfaceV{}
+			}
+			if h, ok := ex.ghost["json:"+enc]; ok {
+				ex.store(dst, intrHeaderClone(ex, nil, []Value{h}, fr))
+				return &IfaceV{}
+			}
+		}
+	}
+	// arbitrary bytes: may fail, may succeed with some header set
+	if ex.branch(ex.freshVar("json.Unmarshal.ok", 0)) {
+		ex.nextMap++
+		ex.store(dst, &MapV{M: &MapObj{ID: ex.nextMap}})
+		return &IfaceV{}
+	}
+	return ex.libError("json.SyntaxError")
 }
